@@ -4,6 +4,7 @@
   All statements are for every option set, fuel, trajectory (any length / fuel profile / window), LTO, APU, class.
 -/
 import AeicProofs.Lemmas.C01Assemble
+import AeicProofs.Lemmas.KernelBridge2
 
 set_option linter.unnecessarySeqFocus false
 
@@ -522,5 +523,93 @@ example : (44 / 28) * exApu.co + (44 / (82 / 5)) * exApu.hc + (44 / 12) * max ex
 /-- the window of the example in LTO mode really is the two cruise points: the theorems are not about empty windows -/
 example : winLo (exCfg true) exTraj = 2 ∧ winHi (exCfg true) exTraj = 4 := by
   simp [winLo, winHi, sliceLo, sliceHi, exCfg, exTraj]
+
+
+/-! ## Source tie: the GSE and APU parts as regenerated from `emissions/gse.py` / `emissions/apu.py` by the symbolic translator
+    (`Aeic.Kern.gse_*`, `Aeic.Kern.apu_*`; equal to the model by `AeicProofs/Lemmas/KernelBridge2.lean`) -/
+
+open KernelBridge2
+
+/-- the GSE amounts of the source text are the model's, for every class and species, and so is the GSE fuel burn -/
+theorem src_gse_is_model (f : Fuel ℝ) :
+    (some (Kern.gse_wide_CO2 (fuelEnv f)) = gseEm f .wide .CO2 ∧ Kern.gse_wide_fuel (fuelEnv f) = gseFuelBurn f .wide) ∧
+    (some (Kern.gse_narrow_CO2 (fuelEnv f)) = gseEm f .narrow .CO2 ∧ Kern.gse_narrow_fuel (fuelEnv f) = gseFuelBurn f .narrow) ∧
+    (some (Kern.gse_small_CO2 (fuelEnv f)) = gseEm f .small .CO2 ∧ Kern.gse_small_fuel (fuelEnv f) = gseFuelBurn f .small) ∧
+    (some (Kern.gse_freight_CO2 (fuelEnv f)) = gseEm f .freight .CO2 ∧ Kern.gse_freight_fuel (fuelEnv f) = gseFuelBurn f .freight) :=
+  ⟨⟨(gse_wide f).1, (gse_wide f).2.2.2.2.2.2.2.2.2.2.2.2.2⟩, ⟨(gse_narrow f).1, (gse_narrow f).2.2.2.2.2.2.2.2.2.2.2.2.2⟩,
+   ⟨(gse_small f).1, (gse_small f).2.2.2.2.2.2.2.2.2.2.2.2.2⟩, ⟨(gse_freight f).1, (gse_freight f).2.2.2.2.2.2.2.2.2.2.2.2.2⟩⟩
+
+/-- NO + NO₂ + HONO = NOx, SO₂ + SO₄ = SOx and H₂O = EI·fuel for the GSE amounts **as the source text computes them**, all classes -/
+theorem src_gse_splits (f : Fuel ℝ) :
+    Kern.gse_wide_NO (fuelEnv f) + Kern.gse_wide_NO2 (fuelEnv f) + Kern.gse_wide_HONO (fuelEnv f) = Kern.gse_wide_NOx (fuelEnv f) ∧
+    Kern.gse_narrow_NO (fuelEnv f) + Kern.gse_narrow_NO2 (fuelEnv f) + Kern.gse_narrow_HONO (fuelEnv f) = Kern.gse_narrow_NOx (fuelEnv f) ∧
+    Kern.gse_small_NO (fuelEnv f) + Kern.gse_small_NO2 (fuelEnv f) + Kern.gse_small_HONO (fuelEnv f) = Kern.gse_small_NOx (fuelEnv f) ∧
+    Kern.gse_freight_NO (fuelEnv f) + Kern.gse_freight_NO2 (fuelEnv f) + Kern.gse_freight_HONO (fuelEnv f) = Kern.gse_freight_NOx (fuelEnv f) ∧
+    Kern.gse_wide_SO2 (fuelEnv f) + Kern.gse_wide_SO4 (fuelEnv f) = Kern.gse_wide_SOx (fuelEnv f) ∧
+    Kern.gse_narrow_SO2 (fuelEnv f) + Kern.gse_narrow_SO4 (fuelEnv f) = Kern.gse_narrow_SOx (fuelEnv f) ∧
+    Kern.gse_small_SO2 (fuelEnv f) + Kern.gse_small_SO4 (fuelEnv f) = Kern.gse_small_SOx (fuelEnv f) ∧
+    Kern.gse_freight_SO2 (fuelEnv f) + Kern.gse_freight_SO4 (fuelEnv f) = Kern.gse_freight_SOx (fuelEnv f) ∧
+    Kern.gse_wide_H2O (fuelEnv f) = f.eiH2O * Kern.gse_wide_fuel (fuelEnv f) ∧
+    Kern.gse_narrow_H2O (fuelEnv f) = f.eiH2O * Kern.gse_narrow_fuel (fuelEnv f) ∧
+    Kern.gse_small_H2O (fuelEnv f) = f.eiH2O * Kern.gse_small_fuel (fuelEnv f) ∧
+    Kern.gse_freight_H2O (fuelEnv f) = f.eiH2O * Kern.gse_freight_fuel (fuelEnv f) := by
+  refine ⟨?_, ?_, ?_, ?_, ?_, ?_, ?_, ?_, ?_, ?_, ?_, ?_⟩ <;>
+    (simp only [Kern.gse_wide_NO, Kern.gse_wide_NO2, Kern.gse_wide_HONO, Kern.gse_wide_NOx, Kern.gse_wide_SO2, Kern.gse_wide_SO4, Kern.gse_wide_SOx, Kern.gse_wide_H2O, Kern.gse_wide_fuel, Kern.gse_narrow_NO, Kern.gse_narrow_NO2, Kern.gse_narrow_HONO, Kern.gse_narrow_NOx, Kern.gse_narrow_SO2, Kern.gse_narrow_SO4, Kern.gse_narrow_SOx, Kern.gse_narrow_H2O, Kern.gse_narrow_fuel, Kern.gse_small_NO, Kern.gse_small_NO2, Kern.gse_small_HONO, Kern.gse_small_NOx, Kern.gse_small_SO2, Kern.gse_small_SO4, Kern.gse_small_SOx, Kern.gse_small_H2O, Kern.gse_small_fuel, Kern.gse_freight_NO, Kern.gse_freight_NO2, Kern.gse_freight_HONO, Kern.gse_freight_NOx, Kern.gse_freight_SO2, Kern.gse_freight_SO4, Kern.gse_freight_SOx, Kern.gse_freight_H2O, Kern.gse_freight_fuel,
+      fuelEnv, String.reduceEq, if_true, if_false, lit_real] <;> norm_num <;> ring_nf)
+
+theorem amount_of_bridge {e i fb : ℝ} {c : Cfg} {f : Fuel ℝ} {l : SV (TM ℝ)} {a : ApuIn ℝ} {s : Sp}
+    (hi : some i = apuIdx c f l a s) (he : some e = apuEm c f l a s) (hf : fb = apuFuelBurn a) : e = i * fb := by
+  unfold apuEm at he
+  rw [← hi] at he
+  simpa [hf] using he
+
+/-- every APU amount of the source text is its index times the APU fuel burn (default APU time) -/
+theorem src_apu_amount_eq_index_times_fuel (c : Cfg) (f : Fuel ℝ) (so2 so4 t : ℝ) (a : ApuIn ℝ) (h2 h4 : Bool) :
+    Kern.apu_emission_SO2 (apuEnv f so2 so4 a) 900 h2 h4 = Kern.apu_index_SO2 (apuEnv f so2 so4 a) t h2 h4 * Kern.apu_fuel_burn (apuEnv f so2 so4 a) 900 h2 h4 ∧
+    Kern.apu_emission_SO4 (apuEnv f so2 so4 a) 900 h2 h4 = Kern.apu_index_SO4 (apuEnv f so2 so4 a) t h2 h4 * Kern.apu_fuel_burn (apuEnv f so2 so4 a) 900 h2 h4 ∧
+    Kern.apu_emission_SOx (apuEnv f so2 so4 a) 900 h2 h4 = Kern.apu_index_SOx (apuEnv f so2 so4 a) t h2 h4 * Kern.apu_fuel_burn (apuEnv f so2 so4 a) 900 h2 h4 ∧
+    Kern.apu_emission_PMnvol (apuEnv f so2 so4 a) 900 h2 h4 = Kern.apu_index_PMnvol (apuEnv f so2 so4 a) t h2 h4 * Kern.apu_fuel_burn (apuEnv f so2 so4 a) 900 h2 h4 ∧
+    Kern.apu_emission_PMvol (apuEnv f so2 so4 a) 900 h2 h4 = Kern.apu_index_PMvol (apuEnv f so2 so4 a) t h2 h4 * Kern.apu_fuel_burn (apuEnv f so2 so4 a) 900 h2 h4 ∧
+    Kern.apu_emission_NO (apuEnv f so2 so4 a) 900 h2 h4 = Kern.apu_index_NO (apuEnv f so2 so4 a) t h2 h4 * Kern.apu_fuel_burn (apuEnv f so2 so4 a) 900 h2 h4 ∧
+    Kern.apu_emission_NO2 (apuEnv f so2 so4 a) 900 h2 h4 = Kern.apu_index_NO2 (apuEnv f so2 so4 a) t h2 h4 * Kern.apu_fuel_burn (apuEnv f so2 so4 a) 900 h2 h4 ∧
+    Kern.apu_emission_HONO (apuEnv f so2 so4 a) 900 h2 h4 = Kern.apu_index_HONO (apuEnv f so2 so4 a) t h2 h4 * Kern.apu_fuel_burn (apuEnv f so2 so4 a) 900 h2 h4 ∧
+    Kern.apu_emission_NOx (apuEnv f so2 so4 a) 900 h2 h4 = Kern.apu_index_NOx (apuEnv f so2 so4 a) t h2 h4 * Kern.apu_fuel_burn (apuEnv f so2 so4 a) 900 h2 h4 ∧
+    Kern.apu_emission_HC (apuEnv f so2 so4 a) 900 h2 h4 = Kern.apu_index_HC (apuEnv f so2 so4 a) t h2 h4 * Kern.apu_fuel_burn (apuEnv f so2 so4 a) 900 h2 h4 ∧
+    Kern.apu_emission_CO (apuEnv f so2 so4 a) 900 h2 h4 = Kern.apu_index_CO (apuEnv f so2 so4 a) t h2 h4 * Kern.apu_fuel_burn (apuEnv f so2 so4 a) 900 h2 h4 ∧
+    Kern.apu_emission_H2O (apuEnv f so2 so4 a) 900 h2 h4 = Kern.apu_index_H2O (apuEnv f so2 so4 a) t h2 h4 * Kern.apu_fuel_burn (apuEnv f so2 so4 a) 900 h2 h4 ∧
+    Kern.apu_emission_CO2 (apuEnv f so2 so4 a) 900 h2 h4 = Kern.apu_index_CO2 (apuEnv f so2 so4 a) t h2 h4 * Kern.apu_fuel_burn (apuEnv f so2 so4 a) 900 h2 h4 := by
+  have hi := apu_indices c f so2 so4 t a h2 h4
+  have he := apu_emissions c f so2 so4 a h2 h4
+  have hf := he.2.2.2.2.2.2.2.2.2.2.2.2.2
+  refine ⟨?_, ?_, ?_, ?_, ?_, ?_, ?_, ?_, ?_, ?_, ?_, ?_, ?_⟩
+  · exact amount_of_bridge (hi.1) (he.1) hf
+  · exact amount_of_bridge (hi.2.1) (he.2.1) hf
+  · exact amount_of_bridge (hi.2.2.1) (he.2.2.1) hf
+  · exact amount_of_bridge (hi.2.2.2.1) (he.2.2.2.1) hf
+  · exact amount_of_bridge (hi.2.2.2.2.1) (he.2.2.2.2.1) hf
+  · exact amount_of_bridge (hi.2.2.2.2.2.1) (he.2.2.2.2.2.1) hf
+  · exact amount_of_bridge (hi.2.2.2.2.2.2.1) (he.2.2.2.2.2.2.1) hf
+  · exact amount_of_bridge (hi.2.2.2.2.2.2.2.1) (he.2.2.2.2.2.2.2.1) hf
+  · exact amount_of_bridge (hi.2.2.2.2.2.2.2.2.1) (he.2.2.2.2.2.2.2.2.1) hf
+  · exact amount_of_bridge (hi.2.2.2.2.2.2.2.2.2.1) (he.2.2.2.2.2.2.2.2.2.1) hf
+  · exact amount_of_bridge (hi.2.2.2.2.2.2.2.2.2.2.1) (he.2.2.2.2.2.2.2.2.2.2.1) hf
+  · exact amount_of_bridge (hi.2.2.2.2.2.2.2.2.2.2.2.1) (he.2.2.2.2.2.2.2.2.2.2.2.1) hf
+  · exact amount_of_bridge (hi.2.2.2.2.2.2.2.2.2.2.2.2) (he.2.2.2.2.2.2.2.2.2.2.2.2.1) hf
+
+/-- NO + NO₂ + HONO = NOx and SO₂ + SO₄ = SOx for the APU indices of the source text -/
+theorem src_apu_splits (f : Fuel ℝ) (so2 so4 t : ℝ) (a : ApuIn ℝ) (h2 h4 : Bool) :
+    Kern.apu_index_NO (apuEnv f so2 so4 a) t h2 h4 + Kern.apu_index_NO2 (apuEnv f so2 so4 a) t h2 h4
+      + Kern.apu_index_HONO (apuEnv f so2 so4 a) t h2 h4 = Kern.apu_index_NOx (apuEnv f so2 so4 a) t h2 h4 ∧
+    Kern.apu_index_SO2 (apuEnv f so2 so4 a) t h2 h4 + Kern.apu_index_SO4 (apuEnv f so2 so4 a) t h2 h4
+      = Kern.apu_index_SOx (apuEnv f so2 so4 a) t h2 h4 := by
+  have hi := apu_indices (⟨false, true, true, true, .bffm2, true, true, true, .none, true, true, false⟩ : Cfg) f so2 so4 t a h2 h4
+  obtain ⟨i1, i2, i3, _, _, i6, i7, i8, i9, _⟩ := hi
+  simp only [apuIdx, Option.some.injEq] at i1 i2 i3 i6 i7 i8 i9
+  rw [i1, i2, i3, i6, i7, i8, i9]
+  have s1 := spec_sum_one .takeoff
+  simp only [TM.get] at s1
+  constructor
+  · rw [← mul_add, ← mul_add, s1, mul_one]
+  · exact i3.symm ▸ rfl
 
 end C01
